@@ -155,6 +155,108 @@ Definition do_select (i l : value) : res value :=
   | _, _ => Err EUndefined
   end.
 
+(* ---- Fn::FindInMap key lookup (library helper _mapping_get, repair of F31): the key exactly; failing that, and only when
+        the key text is "true" / "false" (how every boolean spelling reaches the lookup, see [render_str]), the first entry,
+        in dictionary order, whose key lower-cases to it ---- *)
+Fixpoint lookup_ci {A} (k : str) (d : list (str * A)) : option A :=
+  match d with
+  | [] => None
+  | (k', v) :: d' => if str_eqb (lower k') k then Some v else lookup_ci k d'
+  end.
+Definition is_bool_text (k : str) : bool := str_eqb k S_true || str_eqb k S_false.
+Definition lookup_bk {A} (k : str) (d : list (str * A)) : option A :=
+  match lookup k d with
+  | Some v => Some v
+  | None => if is_bool_text k then lookup_ci k d else None
+  end.
+
+Lemma lookup_bk_exact {A} k (d : list (str * A)) v : lookup k d = Some v -> lookup_bk k d = Some v.
+Proof. intros H. unfold lookup_bk. rewrite H. reflexivity. Qed.
+Lemma is_bool_text_false k : k <> S_true -> k <> S_false -> is_bool_text k = false.
+Proof.
+  intros Ht Hf. unfold is_bool_text. apply orb_false_iff. split; apply str_eqb_neq; assumption.
+Qed.
+Lemma is_bool_text_true k : is_bool_text k = true -> k = S_true \/ k = S_false.
+Proof.
+  unfold is_bool_text. intros H. apply orb_true_iff in H. destruct H as [H|H]; apply str_eqb_spec in H; auto.
+Qed.
+Lemma lookup_bk_plain {A} k (d : list (str * A)) : k <> S_true -> k <> S_false -> lookup_bk k d = lookup k d.
+Proof.
+  intros Ht Hf. unfold lookup_bk. rewrite (is_bool_text_false k Ht Hf). destruct (lookup k d); reflexivity.
+Qed.
+Lemma lookup_bk_nil {A} k : lookup_bk k (@nil (str * A)) = None.
+Proof. unfold lookup_bk. simpl. destruct (is_bool_text k); reflexivity. Qed.
+Lemma lookup_ci_In {A} k (d : list (str * A)) v : lookup_ci k d = Some v -> exists k', In (k', v) d /\ lower k' = k.
+Proof.
+  induction d as [|[k0 v0] d IH]; simpl; [discriminate|].
+  destruct (str_eqb (lower k0) k) eqn:E.
+  - apply str_eqb_spec in E. intros H. inversion H; subst. exists k0. split; [left; reflexivity | reflexivity].
+  - intros H. destruct (IH H) as (k' & Hin & Hl). exists k'. split; [right; exact Hin | exact Hl].
+Qed.
+Lemma lookup_ci_None {A} k (d : list (str * A)) : lookup_ci k d = None <-> forall k', In k' (keys d) -> lower k' <> k.
+Proof.
+  induction d as [|[k0 v0] d IH]; simpl; [split; [intros _ k' [] | reflexivity]|].
+  destruct (str_eqb (lower k0) k) eqn:E.
+  - apply str_eqb_spec in E. split; [discriminate | intros H; exfalso; apply (H k0); [left; reflexivity | exact E]].
+  - apply str_eqb_neq in E. rewrite IH. split.
+    + intros H k' [C|C]; [subst; exact E | apply H; exact C].
+    + intros H k' C. apply H. right. exact C.
+Qed.
+(* whatever is found sits in the dictionary, under the key or under a spelling of it *)
+Lemma lookup_bk_In {A} k (d : list (str * A)) v :
+  lookup_bk k d = Some v -> exists k', In (k', v) d /\ (k' = k \/ (is_bool_text k = true /\ lower k' = k)).
+Proof.
+  unfold lookup_bk. destruct (lookup k d) as [x|] eqn:E.
+  - intros H. inversion H; subst. exists k. split; [apply lookup_In; exact E | left; reflexivity].
+  - destruct (is_bool_text k) eqn:B; [|discriminate]. intros H.
+    destruct (lookup_ci_In k d v H) as (k' & Hin & Hl). exists k'. split; [exact Hin | right; split; [reflexivity | exact Hl]].
+Qed.
+Lemma lookup_bk_None {A} k (d : list (str * A)) :
+  lookup_bk k d = None <-> ~ In k (keys d) /\ (is_bool_text k = true -> forall k', In k' (keys d) -> lower k' <> k).
+Proof.
+  unfold lookup_bk. destruct (lookup k d) as [x|] eqn:E.
+  - split; [discriminate|]. intros [H _]. exfalso. apply H. apply lookup_In in E. apply in_map_iff. exists (k, x). split; [reflexivity | exact E].
+  - apply lookup_None in E. destruct (is_bool_text k) eqn:B.
+    + rewrite lookup_ci_None. split; [intros H; split; [exact E | intros _; exact H] | intros [_ H]; apply H; reflexivity].
+    + split; [intros _; split; [exact E | discriminate] | reflexivity].
+Qed.
+
+(* the entry found is the one an exact lookup of ITS spelling finds (first occurrence): facts about "every exact lookup"
+   transfer to [lookup_bk] *)
+Lemma lookup_ci_lookup {A} k (d : list (str * A)) v : lookup_ci k d = Some v -> exists k', lookup k' d = Some v /\ lower k' = k.
+Proof.
+  induction d as [|[k0 v0] d IH]; simpl; [discriminate|].
+  destruct (str_eqb (lower k0) k) eqn:E.
+  - apply str_eqb_spec in E. intros H. inversion H; subst. exists k0. rewrite str_eqb_refl. split; reflexivity.
+  - intros H. destruct (IH H) as (k' & Hl & Hk). exists k'. split; [|exact Hk].
+    destruct (str_eqb k' k0) eqn:E2; [|exact Hl].
+    apply str_eqb_spec in E2. subst k0. apply str_eqb_neq in E. contradiction.
+Qed.
+Lemma lookup_bk_lookup {A} k (d : list (str * A)) v :
+  lookup_bk k d = Some v -> exists k', lookup k' d = Some v /\ (k' = k \/ (is_bool_text k = true /\ lower k' = k)).
+Proof.
+  unfold lookup_bk. destruct (lookup k d) as [x|] eqn:E.
+  - intros H. inversion H; subst. exists k. split; [exact E | left; reflexivity].
+  - destruct (is_bool_text k) eqn:B; [|discriminate]. intros H.
+    destruct (lookup_ci_lookup k d v H) as (k' & Hin & Hl). exists k'. split; [exact Hin | right; split; [reflexivity | exact Hl]].
+Qed.
+
+(* a key spelled like a boolean, the only spelling of it in the dictionary, is found by its lower-cased text *)
+Lemma lookup_bk_spelling {A} k (d : list (str * A)) v :
+  is_bool_text (lower k) = true -> lookup k d = Some v ->
+  (forall k', In k' (keys d) -> lower k' = lower k -> k' = k) ->
+  lookup_bk (lower k) d = Some v.
+Proof.
+  intros Hb Hl Hu.
+  assert (Hin : forall k' (x : A), lookup k' d = Some x -> In k' (keys d)).
+  { intros k' x H. apply lookup_In in H. apply in_map_iff. exists (k', x). split; [reflexivity | exact H]. }
+  unfold lookup_bk. destruct (lookup (lower k) d) as [x|] eqn:E.
+  - rewrite <- (Hu (lower k) (Hin _ _ E) (lower_idem k)) in Hl. congruence.
+  - rewrite Hb. destruct (lookup_ci (lower k) d) as [x|] eqn:C.
+    + destruct (lookup_ci_lookup _ _ _ C) as (k' & Hl' & Hk'). rewrite (Hu k' (Hin _ _ Hl') Hk') in Hl'. congruence.
+    + exfalso. apply (proj1 (lookup_ci_None (lower k) d) C k (Hin _ _ Hl)). reflexivity.
+Qed.
+
 Definition do_find_in_map (e : env) (m k1 k2 : value) : res value :=
   match m, k1, k2 with
   | VStr ms, VStr s1, VStr s2 =>
@@ -162,10 +264,10 @@ Definition do_find_in_map (e : env) (m k1 k2 : value) : res value :=
       match lookup ms (mappings e) with
       | None => undef
       | Some (VDict top) =>
-          match lookup s1 top with
+          match lookup_bk s1 top with
           | None => undef
           | Some (VDict snd_) =>
-              match lookup s2 snd_ with
+              match lookup_bk s2 snd_ with
               | None | Some VNull => undef
               | Some leaf => Ok leaf
               end
